@@ -292,7 +292,10 @@ func ModelLabels(c *Case, v *VResult, l map[string]bool) {
 		}
 	}
 	// same key provided at two levels of one root path
-	type home struct{ k MKey; s int }
+	type home struct {
+		k MKey
+		s int
+	}
 	provHomes := map[MKey][]int{}
 	feederHomes := map[MKey]map[int]int{}
 	for _, sc := range m.Scopes {
